@@ -130,4 +130,23 @@ theorem crop_shape_resolve_eq (form : Crop.CropForm) (ndim : Int) (crop keyVal :
   have h : ((crop.length : Int) = 2) ↔ crop.length = 2 := by omega
   cases form <;> simp [Gen.C10.crop_shape_resolve, Crop.cropShapeResolve, h]
 
+/-- `PadCoilDimensionModule.forward`: the guard chain and the zero-coil count of the source are the model's decision -/
+theorem pad_coil_forward_eq (num cur : Int) (hasKey : Bool) :
+    Gen.C10.pad_coil_forward num cur hasKey = Crop.padCoilDecision num cur hasKey := by
+  unfold Gen.C10.pad_coil_forward Crop.padCoilDecision
+  by_cases h0 : num = 0
+  · simp [h0]
+  · cases hasKey
+    · simp [h0]
+    · by_cases h1 : cur > num
+      · simp [h0, h1]
+      · by_cases h2 : cur = num
+        · simp [h0, h2]
+        · have hm : pyMax (num - cur) 0 = max (num - cur) 0 := by
+            simp only [pyMax]; split <;> omega
+          simp [h0, h1, h2, hm]
+
+/-- the zeros are concatenated IN FRONT of the data (`torch.cat([zeros, data], dim=self.coil_dim)`) -/
+theorem pad_coil_cat_eq : Gen.C10.padCoilCat = Crop.padCoilCatModel := by decide
+
 end DirectVerif.Bridge.C10
